@@ -12,6 +12,12 @@ CLAIMED = {
 CLAIMED["C13"] = dict(engine="ManifestIndex", technique="TLC closure of ManifestIndex.tla + replay of every transition on endorse.VirtualFirmware",
    text="TLC computes the closure of reachable (manifest, files) states for a pool of images x names x overwrite (plus snapshot runs) and checks uniqueness, resolution, latest-lookup and no-clobber on the design; every transition of that closure is materialised as a real version-control head, executed with one real endorse run, projected back and the C13 predicates evaluated; random walks over a larger pool (in-memory backend and localnonvcs on disk) go beyond the bound.",
    note="Trusted: TLC, the projection in harness/ec/manifest.go. Ill-formed hand-written manifests are outside the statement.", ref="5/C13")
+CLAIMED["C10"] = dict(engine="KeyAuthority", technique="TLC model checking of KeyAuthority.tla (faults/crashes) + fault injection at every real call of rotation + TLC trace validation of the recorded logs",
+   text="TLC checks on the design that after every abort position of every rotation in every history the recorded primary is usable, that destruction follows the durable record and that the store is consistent; on the real code every call rotation makes (Manager, Signer, CA, storage; enumerated from the real call log, so new calls get a position automatically) is made to fail and the process is crashed after it, for each shipped key manager x CA combination and 0..N prior rotations; fresh instances are loaded and must sign a verifiable document, a later --overwrite rotation must succeed; logs of the storage-backed combinations are validated against Trace_KeyAuthority.",
+   note="Trusted: TLC, the fault-injecting doubles, object-atomic storage writes. memkm is volatile, so crashes are applied to localkm only.", ref="5/C10")
+CLAIMED["C11"] = dict(engine="KeyAuthority", technique="TLC model checking of KeyAuthority.tla (invariant in every state = every write prefix) + reload at every prefix of recorded real write sequences + trace validation",
+   text="C11_StoreConsistent is an invariant of every reachable state of the model, hence of every prefix of every write order; on the real code the storage double records the object writes of real bootstraps and rotations (repeated to vary upload order), every prefix is materialised and read back through a fresh gcsca instance, and the recorded logs are validated against the trace specification, which rejects a manifest written ahead of a certificate it names.",
+   note="Trusted: TLC, object-atomic writes. Upload order of pending certificates depends on Go map iteration; orders seen are reported in the evidence.", ref="5/C11")
 PENDING = {}
 import os
 props=[json.loads(l) for l in open('/verif/properties.jsonl')]
@@ -30,7 +36,7 @@ m={"version":1,
  "setup_cmd":"cd /verif/harness && GOFLAGS=-mod=mod GOWORK=off GOPROXY=off GOSUMDB=off GOTOOLCHAIN=local go build -tags verif -o /verif/bin/vcheck ./cmd/vcheck",
  "hooks":{"guard":"verif","enable":"go build -tags verif (the harness module replaces both repository modules with /repo and is compiled from the working tree on every check)",
    "baseline_off_cmd":"/verif/baseline_off.sh","source_commits":json.load(open('/verif/hook_commits.json')) if os.path.exists('/verif/hook_commits.json') else [],"add_only":True},
- "engines":[{"name":"ManifestIndex","path":"spec/ManifestIndex.tla","serves_properties":["C13"],"kind_free_text":"TLA+ transcription of the manifest merge rules; closure + per-transition replay; Go binding in harness/ec/manifest.go"},{"name":"EndorseCommit","path":"spec/EndorseCommit.tla","serves_properties":["C14","C15"],"kind_free_text":"TLA+ state machine of sign + commit retry loop; TLC exhaustive + behaviour emission + trace validation (spec/Trace_EndorseCommit.tla); Go binding in harness/ec"}],
+ "engines":[{"name":"KeyAuthority","path":"spec/KeyAuthority.tla","serves_properties":["C10","C11","C12","C03"],"kind_free_text":"TLA+ state machine of key store + CA store with bootstrap/rotate/wipeout/endorse, faults and crashes; trace spec spec/Trace_KeyAuthority.tla; Go binding in harness/ka"},{"name":"ManifestIndex","path":"spec/ManifestIndex.tla","serves_properties":["C13"],"kind_free_text":"TLA+ transcription of the manifest merge rules; closure + per-transition replay; Go binding in harness/ec/manifest.go"},{"name":"EndorseCommit","path":"spec/EndorseCommit.tla","serves_properties":["C14","C15"],"kind_free_text":"TLA+ state machine of sign + commit retry loop; TLC exhaustive + behaviour emission + trace validation (spec/Trace_EndorseCommit.tla); Go binding in harness/ec"}],
  "checks":checks,"not_applicable":na,
  "notes":"All checks: ./check <id> <tier> rebuilds harness/cmd/vcheck from /repo's working tree with -tags verif. Exit 2 = infrastructure error (never a verdict)."}
 json.dump(m,open('/verif/MANIFEST.json','w'),indent=1)
